@@ -1327,6 +1327,8 @@ class Interp:
                 return SHAPE
             if e.attr == "inf" and A.dotted(e) in ("np.inf", "math.inf", "numpy.inf", "jnp.inf", "torch.inf"):
                 return Poly.atom("INF")
+            if e.attr == "nan" and A.dotted(e) in ("np.nan", "math.nan", "numpy.nan", "jnp.nan", "torch.nan"):
+                return Poly.atom("NAN")
             if e.attr == "pi" and A.dotted(e) in ("np.pi", "math.pi", "numpy.pi", "jnp.pi"):
                 return Poly.atom("PI")
             if e.attr == "T":
@@ -1343,7 +1345,12 @@ class Interp:
                 if type(v).__name__ == "T":
                     from .listnp import arith as _arith2
                     return _arith2("*", v, Poly.const(-1))
-                return -to_poly(v)
+                pv_ = to_poly(v)
+                if pv_ == Poly.atom("INF"):
+                    return Poly.atom("NEGINF")  # -math.inf IS float('-inf')
+                if pv_ == Poly.atom("NEGINF"):
+                    return Poly.atom("INF")
+                return -pv_
             if isinstance(e.op, ast.UAdd):
                 return v
             if isinstance(e.op, ast.Not):
